@@ -41,6 +41,10 @@ type C09Reader struct {
 	ErrAt       int   `json:"errAt,omitempty"` // -1/0 with ErrSet=false: none
 	ErrSet      bool  `json:"errSet,omitempty"`
 	ZeroReads   int   `json:"zeroReads,omitempty"`
+	// ErrKind: what the failing reader returns from ErrAt on, every time it is asked again:
+	// "" a plain error; "timeout" an error that says Timeout() and Temporary() (an expired read
+	// deadline of a connection the message is read from); "unexpected-eof" io.ErrUnexpectedEOF
+	ErrKind string `json:"errKind,omitempty"`
 }
 
 type C09Case struct {
@@ -57,6 +61,9 @@ type C09Scenario struct {
 	Seed    uint64   `json:"seed"`
 	NCases  int      `json:"ncases,omitempty"` // derive this many cases from Seed (enumeration mode)
 	Case    *C09Case `json:"case,omitempty"`   // a single pinned case (replay)
+	// Prior: the case this process parsed just before Case (replay runs it first, unjudged):
+	// what a parse leaves behind in the package is part of the history
+	Prior *C09Case `json:"prior,omitempty"`
 }
 
 type c09 struct{}
@@ -90,6 +97,12 @@ func (p *c09) Gen(seed uint64, i int, tier string) (any, bool) {
 		// depth, the container types are drawn from the seed
 		sc.Base = "nested"
 		sc.RandLen = sim.Pick(r, []int{3, 8, 16, 24, 32, 48, 64, 100})
+	case i%10 == 2:
+		// a stored message with a large body (70..260 KiB, plain text or one base64 attachment),
+		// parsed unharmed and damaged in turn by one process: RandLen is the size in KiB
+		sc.Base = "large"
+		sc.RandLen = sim.Pick(r, []int{70, 100, 130, 200, 260})
+		sc.NCases = 16
 	default:
 		sc.Base = "render"
 		o := ShapeOpts{MaxAlt: 2, MaxEmbed: 2, MaxAttach: 2, MaxContent: 150, CRLFOnly: true,
@@ -126,6 +139,28 @@ func nestedEML(r *sim.Rand, depth int) []byte {
 	for d := depth - 1; d >= 0; d-- {
 		fmt.Fprintf(&b, "--b%d--\r\n", d)
 	}
+	return []byte(b.String())
+}
+
+// largeEML writes a legal message of about kib KiB: a single text part, or multipart/mixed with a
+// short text and one base64 attachment.
+func largeEML(r *sim.Rand, kib int) []byte {
+	var b strings.Builder
+	b.WriteString("Date: Wed, 01 Jan 2025 10:00:00 +0000\r\nFrom: <a@origin.example>\r\nTo: <b@dest.example>\r\nSubject: large\r\nMIME-Version: 1.0\r\n")
+	n := kib * 1024
+	if r.Chance(1, 2) {
+		b.WriteString("Content-Type: text/plain; charset=UTF-8\r\nContent-Transfer-Encoding: 7bit\r\n\r\n")
+		for b.Len() < n {
+			b.WriteString("a line of a long report that somebody stored as a message, seventy characters\r\n")
+		}
+		return []byte(b.String())
+	}
+	b.WriteString("Content-Type: multipart/mixed; boundary=\"big\"\r\n\r\n--big\r\nContent-Type: text/plain; charset=UTF-8\r\nContent-Transfer-Encoding: quoted-printable\r\n\r\nsee attachment\r\n")
+	b.WriteString("--big\r\nContent-Type: application/octet-stream; name=\"big.bin\"\r\nContent-Disposition: attachment; filename=\"big.bin\"\r\nContent-Transfer-Encoding: base64\r\n\r\n")
+	for b.Len() < n {
+		b.WriteString("QUJDREVGR0hJSktMTU5PUFFSU1RVVldYWVphYmNkZWZnaGlqa2xtbm9wcXJzdHV2d3h5ejAxMjM0\r\n")
+	}
+	b.WriteString("--big--\r\n")
 	return []byte(b.String())
 }
 
@@ -194,6 +229,7 @@ func genCase(r *sim.Rand, base []byte) C09Case {
 	if r.Chance(1, 5) {
 		c.Reader.ErrSet = true
 		c.Reader.ErrAt = off()
+		c.Reader.ErrKind = []string{"", "timeout", "", "unexpected-eof"}[c.Reader.ErrAt%4]
 	}
 	if r.Chance(1, 8) {
 		c.Reader.ZeroReads = 1 + r.Intn(3)
@@ -281,6 +317,14 @@ func applyMuts(base, other []byte, muts []C09Mut) []byte {
 
 var errReader = errors.New("injected read error")
 
+// timeoutErr is what a read past its deadline returns: a net.Error that calls itself temporary.
+type timeoutErr struct{}
+
+func (timeoutErr) Error() string   { return "read tcp 192.0.2.1:25: i/o timeout" }
+func (timeoutErr) Timeout() bool   { return true }
+func (timeoutErr) Temporary() bool { return true }
+func (timeoutErr) Unwrap() error   { return errReader }
+
 type simReader struct {
 	data  []byte
 	pos   int
@@ -300,6 +344,12 @@ func (r *simReader) Read(p []byte) (int, error) {
 	}
 	if r.pos >= limit {
 		if r.cfg.ErrSet {
+			switch r.cfg.ErrKind {
+			case "timeout":
+				return 0, timeoutErr{}
+			case "unexpected-eof":
+				return 0, fmt.Errorf("%w: %w", io.ErrUnexpectedEOF, errReader)
+			}
 			return 0, errReader
 		}
 		return 0, io.EOF
@@ -399,12 +449,17 @@ func (p *c09) Exec(t *testing.T, scAny any) Outcome {
 	case sc.Base == "nested":
 		base = nestedEML(sim.NewRand(sc.Seed), sc.RandLen)
 		other = base
+	case sc.Base == "large":
+		base = largeEML(sim.NewRand(sc.Seed), sc.RandLen)
+		other = base
 	default:
 		base = sim.NewRand(sc.Seed).Bytes(sc.RandLen)
 		other = base
 	}
 	out.Digest = hashKey(string(base))
+	var prev *C09Case
 	judge := func(c C09Case) {
+		defer func() { cc := c; prev = &cc }()
 		if c09Hung.Load() {
 			// a parse that never returns keeps its goroutine (and, when it spins, a processor)
 			// for the rest of this process: what follows would be judged on a crippled machine.
@@ -418,6 +473,9 @@ func (p *c09) Exec(t *testing.T, scAny any) Outcome {
 		narrowed.NCases = 0
 		cc := c
 		narrowed.Case = &cc
+		if prev != nil {
+			narrowed.Prior = prev
+		}
 		note := func(tag, f string, a ...any) {
 			if out.Narrowed == nil {
 				out.Narrowed = map[string]any{}
@@ -441,6 +499,9 @@ func (p *c09) Exec(t *testing.T, scAny any) Outcome {
 			out.stat("parse.error", 1)
 			if errors.Is(pr.err, errReader) {
 				out.stat("fault.fired.reader_error", 1)
+				if c.Reader.ErrKind != "" {
+					out.stat("fault.fired.reader_error_"+c.Reader.ErrKind, 1)
+				}
 			}
 		} else {
 			out.stat("parse.ok", 1)
@@ -456,6 +517,9 @@ func (p *c09) Exec(t *testing.T, scAny any) Outcome {
 		}
 	}
 	if sc.Case != nil {
+		if sc.Prior != nil {
+			_ = parseOnce(applyMuts(base, other, sc.Prior.Muts), *sc.Prior, ScratchDir)
+		}
 		judge(*sc.Case)
 		out.Evals = 1
 	} else {
@@ -513,7 +577,7 @@ func (p *c09) Shrink(scAny any) []any {
 
 func (p *c09) Info() PropInfo {
 	return PropInfo{
-		Rule:            "per stored message (75% renderings of generated messages incl. awkward file names, 10% fixtures of /repo/testdata, 10% random bytes, 5% legal messages of 3..100 multipart containers nested inside each other) 250 (thorough: 300) seeded cases, each = 0..3 storage faults {truncate, torn write with a second message, lost range, duplicated range, zeroed block, byte flip, bit flip, CRLF->LF from an offset, emptied parameter value, inserted token, a prefix put in front of the message (byte-order mark whole or cut, mbox separator line, blank lines), header field value replaced by a degenerate one (empty groups, lone separators, half-finished parameters, ...)} at offsets biased (3:1) to positions next to ; = \" : - < > / , CR LF, read back through EMLToMsgFromReader with a reader of drawn chunking / (n>0, EOF) / error at an offset / (0,nil) runs, or through EMLToMsgFromString / EMLToMsgFromFile; evaluations = parses; distinct = distinct stored messages",
+		Rule:            "per stored message (70% renderings of generated messages incl. awkward file names, 10% fixtures of /repo/testdata, 10% random bytes, 5% legal messages of 3..100 multipart containers nested inside each other, 5% legal messages of 70..260 KiB (16 cases each), unharmed and damaged parses following each other in one process) 250 (thorough: 300) seeded cases, each = 0..3 storage faults {truncate, torn write with a second message, lost range, duplicated range, zeroed block, byte flip, bit flip, CRLF->LF from an offset, emptied parameter value, inserted token, a prefix put in front of the message (byte-order mark whole or cut, mbox separator line, blank lines), header field value replaced by a degenerate one (empty groups, lone separators, half-finished parameters, ...)} at offsets biased (3:1) to positions next to ; = \" : - < > / , CR LF, read back through EMLToMsgFromReader with a reader of drawn chunking / (n>0, EOF) / error at an offset / (0,nil) runs, or through EMLToMsgFromString / EMLToMsgFromFile; evaluations = parses; distinct = distinct stored messages",
 		Assumptions:     []string{"termination is judged by a 10 s wall-clock watchdog per parse of at most a few KiB, re-checked once before it is reported", "no statement about the value returned"},
 		Real:            []string{"go-mail eml.go (all three entry points) and the Msg setters it calls", "net/mail, mime, mime/multipart, mime/quotedprintable"},
 		Stubbed:         []string{"stored bytes (fault-injected)", "io.Reader (fault-injecting)", "corpus rendering runs on a virtual clock with seeded randomness"},
